@@ -48,6 +48,14 @@ func run(c *hlib.Ctx) {
 	for i := 0; i < n; i++ {
 		casePlyMesh(c, i)
 	}
+	// a few long-list streams per run (lengths around and above the reader's pre-allocation bound)
+	nLong := 6 + n/60
+	if nLong > 24 {
+		nLong = 24
+	}
+	for k := 0; k < nLong; k++ {
+		casePlyLong(c, k)
+	}
 	for i := 0; i < n/2+1; i++ {
 		caseSTLAscii(c, i)
 		caseCSV(c, i)
